@@ -57,6 +57,7 @@ type semGen struct {
 	// noStructRefs: the value being drawn must not reference constants whose
 	// value contains struct literals (see defaultOK)
 	noStructRefs bool
+	curFile      *File
 }
 
 func (g *semGen) name(prefix string) string {
@@ -81,12 +82,40 @@ func GenProgram(r *core.Rand, o SemOpts) *Program {
 	}
 	for i := 0; i < nf; i++ {
 		d := dirs[r.Intn(len(dirs))]
-		g.p.Files = append(g.p.Files, &File{Path: d + "/" + g.name("m") + ".thrift"})
+		base := g.name("m")
+		// the same base name may occur in several directories
+		if i > 0 && o.Dirs && r.Chance(1, 3) {
+			prev := g.p.Files[r.Intn(i)]
+			if path.Dir(prev.Path) != d {
+				base = prev.ModuleName()
+				taken := false
+				for _, f := range g.p.Files {
+					if f.Path == d+"/"+base+".thrift" {
+						taken = true
+					}
+				}
+				if taken {
+					base = g.name("m")
+				}
+			}
+		}
+		g.p.Files = append(g.p.Files, &File{Path: d + "/" + base + ".thrift"})
 	}
 	// include graph: every file but the first has an includer with a smaller
 	// index; extra forward edges at random; back edges only when cycles are allowed
 	for j := 1; j < nf; j++ {
-		g.include(g.p.Files[r.Intn(j)], g.p.Files[j])
+		ok := false
+		for _, i := range r.Perm(j) {
+			if g.include(g.p.Files[i], g.p.Files[j]) {
+				ok = true
+				break
+			}
+		}
+		if !ok {
+			// every candidate already includes a file of that name: rename
+			g.p.Files[j].Path = path.Dir(g.p.Files[j].Path) + "/" + g.name("m") + ".thrift"
+			g.include(g.p.Files[r.Intn(j)], g.p.Files[j])
+		}
 	}
 	for i := 0; i < nf; i++ {
 		for j := i + 1; j < nf; j++ {
@@ -109,6 +138,7 @@ func GenProgram(r *core.Rand, o SemOpts) *Program {
 	}
 	// pass 1: declare
 	for _, f := range g.p.Files {
+		g.curFile = f
 		nd := r.Range(1, o.MaxDefs)
 		if o.ManyTypes {
 			nd = r.Range(o.MaxDefs, 2*o.MaxDefs)
@@ -119,7 +149,7 @@ func GenProgram(r *core.Rand, o SemOpts) *Program {
 			case c < 2:
 				d = &Typedef{Name: g.tname("Td")}
 			case c < 4:
-				d = &Enum{Name: g.name("En")} // never dotted: Enum.ITEM references split at the first dot
+				d = &Enum{Name: g.ename()} // never dotted: Enum.ITEM references split at the first dot
 			case c < 7:
 				d = &Struct{Kind: KStruct, Name: g.tname("St")}
 			case c < 8:
@@ -164,6 +194,12 @@ func GenProgram(r *core.Rand, o SemOpts) *Program {
 	for _, di := range g.all {
 		switch d := di.def.(type) {
 		case *Constant:
+			if d.Type != nil {
+				if d.Value == nil {
+					d.Value = g.constFor(di.file, d.Type, di.rank, 2)
+				}
+				continue
+			}
 			d.Type = g.constType(di.file, 2)
 			d.Value = g.constFor(di.file, d.Type, di.rank, 2)
 			d.Doc = g.doc()
@@ -184,6 +220,9 @@ func GenProgram(r *core.Rand, o SemOpts) *Program {
 			}
 		}
 	}
+	if o.Constants && !o.off("twin-structs") {
+		g.twins() // after defaults: only structs without defaults get a twin
+	}
 	for _, di := range g.all {
 		if s, ok := di.def.(*Service); ok {
 			g.fillService(di, s)
@@ -203,9 +242,40 @@ func GenProgram(r *core.Rand, o SemOpts) *Program {
 
 func (g *semGen) tname(prefix string) string {
 	n := g.name(prefix)
+	if g.curFile != nil && g.r.Chance(1, 6) {
+		// reuse the name of a same-kind definition of another file: a bare
+		// name must still bind to the definition in the same file
+		var c []string
+		for _, di := range g.all {
+			if di.file != g.curFile && strings.HasPrefix(di.def.DefName(), prefix) && !strings.Contains(di.def.DefName(), ".") {
+				c = append(c, di.def.DefName())
+			}
+		}
+		if len(c) > 0 {
+			cand := c[g.r.Intn(len(c))]
+			dup := false
+			for _, di := range g.byFile[g.curFile] {
+				if di.def.DefName() == cand {
+					dup = true
+				}
+			}
+			if !dup {
+				return cand
+			}
+		}
+	}
 	if g.o.DottedLocal && !g.o.ForGen && g.r.Chance(1, 8) {
 		n = n + "." + g.name("x")
 	}
+	return n
+}
+
+// ename: enum names are never dotted but may be reused across files.
+func (g *semGen) ename() string {
+	save := g.o.DottedLocal
+	g.o.DottedLocal = false
+	n := g.tname("En")
+	g.o.DottedLocal = save
 	return n
 }
 
@@ -219,10 +289,13 @@ func (g *semGen) doc() *Doc {
 	return nil
 }
 
-func (g *semGen) include(from, to *File) {
+func (g *semGen) include(from, to *File) bool {
 	for _, h := range g.incl[from] {
 		if h.Target == to {
-			return
+			return true
+		}
+		if h.Target.ModuleName() == to.ModuleName() {
+			return false // one include name per file
 		}
 	}
 	rel := relPath(path.Dir(from.Path), to.Path)
@@ -232,6 +305,7 @@ func (g *semGen) include(from, to *File) {
 	h := &Header{Kind: "include", Path: rel, Target: to}
 	from.Headers = append(from.Headers, h)
 	g.incl[from] = append(g.incl[from], h)
+	return true
 }
 
 func relPath(fromDir, to string) string {
@@ -941,5 +1015,95 @@ func (g *semGen) fillService(di *defInfo, s *Service) {
 func (p *Program) RenderAll(r *core.Rand, lay Layout) {
 	for _, f := range p.Files {
 		f.Render(r.Fork(), lay)
+	}
+}
+
+// requalify re-expresses a type written in file `from` for use in file `to`
+// (which includes `from` under the qualifier q); ok=false if it names
+// something `to` cannot name.
+func requalify(t *TypeRef, from *File, q string) (*TypeRef, bool) {
+	switch t.Kind {
+	case TBase:
+		c := *t
+		return &c, true
+	case TNamed:
+		if t.TFile != from || strings.Contains(t.Name, ".") {
+			return nil, false
+		}
+		return &TypeRef{Kind: TNamed, Name: q + t.Name, Target: t.Target, TFile: t.TFile}, true
+	case TMap:
+		k, ok1 := requalify(t.Key, from, q)
+		e, ok2 := requalify(t.Elem, from, q)
+		return &TypeRef{Kind: TMap, Key: k, Elem: e}, ok1 && ok2
+	default:
+		e, ok := requalify(t.Elem, from, q)
+		return &TypeRef{Kind: t.Kind, Elem: e, Ann: t.Ann}, ok
+	}
+}
+
+// twins plants, in a file Y that includes X, a struct with the same NAME as a
+// struct of X: the same fields plus extra defaulted ones. A constant of Y's
+// struct is then defined by reference to a constant of X's struct, so the
+// referenced value has to be re-cast to the local definition (a reference is
+// only a shortcut when the two types are the same definition).
+func (g *semGen) twins() {
+	r := g.r
+	for _, y := range g.p.Files {
+		for _, h := range g.incl[y] {
+			x := h.Target
+			if x == y || !r.Chance(1, 3) {
+				continue
+			}
+			q := x.ModuleName() + "."
+			for _, di := range g.byFile[x] {
+				sx, ok := di.def.(*Struct)
+				if !ok || sx.Kind != KStruct || strings.Contains(sx.Name, ".") || !g.canHaveLiteral(&TypeRef{Kind: TNamed, Name: sx.Name, Target: sx, TFile: x}) {
+					continue
+				}
+				clash := false
+				for _, dy := range g.byFile[y] {
+					if dy.def.DefName() == sx.Name {
+						clash = true
+					}
+				}
+				if clash {
+					continue
+				}
+				sy := &Struct{Kind: KStruct, Name: sx.Name}
+				good := true
+				maxID := int64(0)
+				for _, f := range sx.Fields {
+					t, ok := requalify(f.Type, x, q)
+					if !ok || f.Default != nil {
+						good = false
+						break
+					}
+					nf := *f
+					nf.Type = t
+					nf.Doc = nil
+					sy.Fields = append(sy.Fields, &nf)
+					if f.ID > maxID {
+						maxID = f.ID
+					}
+				}
+				if !good || maxID > 32000 {
+					continue
+				}
+				for k := r.Range(1, 2); k > 0; k-- {
+					maxID++
+					v := int64(r.Intn(100))
+					sy.Fields = append(sy.Fields, &Field{ID: maxID, IDLit: strconv.FormatInt(maxID, 10), Req: ReqOptional, Name: g.name("extra"),
+						Type: &TypeRef{Kind: TBase, Base: BI32}, Default: &Const{Kind: CInt, Int: v, Lit: strconv.FormatInt(v, 10)}})
+				}
+				g.declare(y, sy)
+				px := &Constant{Name: g.name("kc"), Type: &TypeRef{Kind: TNamed, Name: sx.Name, Target: sx, TFile: x}}
+				g.declare(x, px)
+				px.Value = g.constFor(x, px.Type, g.rank[px], 2)
+				qy := &Constant{Name: g.name("kc"), Type: &TypeRef{Kind: TNamed, Name: sy.Name, Target: sy, TFile: y},
+					Value: &Const{Kind: CRef, Ref: q + px.Name, RefConst: px}}
+				g.declare(y, qy)
+				break
+			}
+		}
 	}
 }
